@@ -424,8 +424,7 @@ def mkSecret (k : SecretKind) (id : List Nat) (qid : Option Nat) (v : Nat) : Sec
 /-- hand a datagram to the map; `sealed` = what peers produced (owner id, call) -/
 def deliver (st : MapSt) (via : String) (sealed : List (List Nat × CryptoCall)) (bytes : List Nat) :
     Option (MapSt × String) :=
-  let auth : Quic.Dc.SecretMap.Entry → SecretView → Bool :=
-    fun e v => sealed.any (fun p => p.1 == e.id && p.2 == secretOpenCall v)
+  let auth : Quic.Dc.SecretMap.Entry → SecretView → Bool := Quic.Dc.SecretMap.idealAuth sealed
   let r : Option (Option (Quic.Dc.SecretMap.State × List Quic.Dc.SecretMap.Event)) :=
     if via == "ctl" then some (Quic.Dc.SecretMap.onPossibleSecretControlPacket auth st.s bytes)
     else if via == "unexp" then some (Quic.Dc.SecretMap.handleUnexpectedPacket auth st.s bytes)
